@@ -111,12 +111,51 @@ class BinInterp(wire.WireInterp):
         self.subpos = {}
 
 
-def pairs():
+_FLAG_MASKS = {}
+
+
+def flag_mask(prog, ty):
+    """OR of the flag constants of a bit-set type of rbx_types (`Faces::RIGHT`, …): the bits a value of the type can have"""
+    if ty in _FLAG_MASKS:
+        return _FLAG_MASKS[ty]
+    mod = {"Faces": "rbx_types::faces", "Axes": "rbx_types::axes"}[ty]
+    mask = 0
+    for path, f in prog.fns.items():
+        if path.startswith(f"{mod}::{ty}::") and path.count("::") == 3 and path.rsplit("::", 1)[-1].isupper() and f.body is not None:
+            try:
+                t = wire.WireInterp(prog, prims=[], depth=4).eval(f.body, {})
+            except (sym.Unsupported, sym.Exit):
+                continue
+            stack = [t]
+            while stack:
+                x = stack.pop()
+                if isinstance(x, tuple) and x:
+                    if x[0] == "c" and isinstance(x[1], int) and not isinstance(x[1], bool):
+                        mask |= x[1]
+                    stack.extend(y for y in x if isinstance(y, tuple))
+    _FLAG_MASKS[ty] = mask
+    return mask
+
+
+def pairs(prog=None):
     P = shape.default_pairs()
 
     def codec(t):
         if t[0] == "app":
             f, a = t[1], t[2]
+            # `T::from_bits(x.bits() & M)`: a mask that keeps every flag bit of T keeps x.bits()
+            if prog is not None and a and a[0][0] == "op" and a[0][1] == "&" and f.endswith(("Faces::from_bits", "Axes::from_bits")):
+                ty_ = "Faces" if "Faces" in f else "Axes"
+                l_, r_ = a[0][2], a[0][3]
+                if l_[0] == "c":
+                    l_, r_ = r_, l_
+                x_ = l_
+                while x_[0] == "cast":
+                    x_ = x_[2]
+                if r_[0] == "c" and isinstance(r_[1], int) and x_[0] == "app" and x_[1].endswith(f"{ty_}::bits"):
+                    fm = flag_mask(prog, ty_)
+                    if fm and (r_[1] & fm) == fm:
+                        a = (l_,) + tuple(a[1:])
             for frm, to in (("FontWeight::from_u16", "FontWeight::as_u16"), ("FontStyle::from_u8", "FontStyle::as_u8"), ("Faces::from_bits", "Faces::bits"),
                             ("Axes::from_bits", "Axes::bits")):
                 if f.endswith(frm) and a and a[0][0] == "app" and a[0][1].endswith(to):
@@ -286,7 +325,7 @@ def _run(c, prog):
     t2v = {vname(k[1]): vname(v[1]) for k, v in tm.items() if k[0] == "v"}
     v2t = {vname(k[1]): vname(v[1]) for k, v in fm.items() if k[0] == "v"}
     prims = binary_prims()
-    N = shape.Normaliser(prog, pairs())
+    N = shape.Normaliser(prog, pairs(prog))
     base_v = fld(("elem", ("in", "values")), "1")
     # the local the decoder's inner `match` dispatches on, per wire type
     scrut_lids, scrut_env = {}, {}
